@@ -89,7 +89,7 @@ func registerAll() {
 			h[i+1] = &HSpec{WaitStarted: n}
 		}
 		regSpec(&Spec{
-			Name: "pipe140-all-blocked", Props: []string{"C06"},
+			Name: "pipe140-all-blocked", Props: []string{"C06", "C03"},
 			Conns: []ConnSpec{{Ops: ops, H: h, Expect: n}},
 			Quick: 0, Thor: 0, MaxPts: 2000000,
 		})
